@@ -1,11 +1,12 @@
 """C08 - nothing configured or recognised as sensitive survives cleaning.
 
-Bounded exhaustive enumeration of lines  d0 t1 d1 t2 d2 [t3 d3]  over a sharp alphabet of
-sensitive tokens T and delimiters D, under every configuration that deviates in at most one
-place from "everything on", executed against the real Cleaner through three paths
-(clean_content, clean_file on a real file, TextFileProvider.write of a simple_file spec under a
-HostContext).  The oracle looks for *survivors* in the output after masking the substitutes the
-obfuscators themselves report in mapping() (DESIGN.md section 3 rule 5).
+Bounded exhaustive enumeration of lines  d0 t1 d1 t2 d2 [t3 d3]  over a sharp alphabet of sensitive tokens T and
+delimiters D (including word-character neighbours and no delimiter at all), under every configuration that deviates in
+at most one place from "everything on", executed against the real Cleaner through every entry point the statement
+names: clean_content (list, single str, two calls on one Cleaner, width=True), clean_file on a real file (also named
+netstat_-neopa), TextFileProvider.write of a simple_file spec and DatasourceProvider.write under a HostContext.  The
+oracle looks for *survivors* in the output after masking the substitutes the obfuscators themselves report in
+mapping() (DESIGN.md section 3 rule 5).
 
 Clauses
   redaction:pattern-line-remains     an output line matches a configured exclusion pattern, or more lines remain
@@ -14,38 +15,49 @@ Clauses
   password:secret-survives           the secret planted after a `password` key occurs in the output
   obfuscation:ipv4-survives          a planted non-loopback IPv4 address occurs in the output
   obfuscation:ipv4-unissued-address  the output holds an IPv4 address that is neither loopback nor a substitute
-                                     listed by mapping() (the statement says "no IPv4 address", not "no planted one")
+                                     listed by mapping() (the statement says "no IPv4 address", not "no planted one");
+                                     not evaluated on keep-width paths nor when an address is glued to a following
+                                     word character (substitute + rest of line reads as a longer dotted number)
   obfuscation:hostname-survives      short / FQDN / other host of the domain occurs in the output
   obfuscation:mac-survives           a planted non-trivial MAC delimited by non-word characters occurs in the output
   obfuscation:survives-in-foreign-line   safety net (a planted text shows up in another line than its own)
   exemption:not-honoured             a spec exempted for exactly that kind (no_redact / no_obfuscate member) came
                                      out changed although the token stands isolated (neighbours are line boundary,
-                                     space, `,`, `[`, `]`, `"` - characters no recogniser looks at)
-  cleaning:raises                    the cleaner raised on a content of the alphabet
+                                     space, tab, `,`, `[`, `]`, `"` - characters no recogniser looks at)
+  cleaning:raises                    the cleaner raised on a content of the alphabet (not on the keep-width paths,
+                                     where the unchanged tree raises at line end: no output, nothing survives)
+
+What is demanded where tokens touch (see _demanded): MAC only when delimited by non-word characters on both sides (the
+statement says so); IPv4 unless glued to a preceding word character / '.' or followed by a digit / '.'; host names,
+keywords, exclusion patterns and password keys always - the statement speaks of occurrences, of lines containing the
+pattern and of the secret that follows a password key, without any delimiter condition.
 
 What the oracle deliberately does not demand (DESIGN.md section 4, C08, "not demanded"):
-  * tokens glued to a preceding word character, and - except IPv4 - to a following one (IPv4 tokens are offered
-    the right-hand neighbours 'x' and '_': the statement has no delimiter condition for IPv4; the token that follows
-    such a neighbour is glued and therefore not demanded);
-  * leading-zero notations, upper-case spellings of the host name, secrets with characters outside the
-    documented class [a-zA-Z0-9_!@#$%^&*()+=/-] (not in the alphabet);
+  * leading-zero notations, secrets with characters outside the documented class [a-zA-Z0-9_!@#$%^&*()+=/-], upper-case
+    spellings of the host name / of the DOMAIN (the statement is silent about case; a host of the domain - spelled as
+    configured - with an upper-case LABEL is in the alphabet and must be replaced);
   * a `password` key that lies inside the secret-class run that follows an earlier `password` key (then it is part
     of the earlier secret, not a key): see _shadowed();
   * that loopback / all-zero / broadcast stay unchanged (the statement only exempts them);
   * that a token of a switched-off or exempted kind stays unchanged when it is NOT isolated (a neighbouring
     obfuscator may legitimately claim it: `10.1.1.1-db.corp.test` is one host label for the host-name pattern,
     `password=S-AA-BB-CC-DD-EE-FF` is one secret);
-  * anything about IPv6 (it is switched on by default only as a neighbour that could interfere).
+  * partial remains of a token another obfuscator took a bite of (`kw+host2.example.com`, `bb:cc:dd:ee:ff`);
+  * anything about IPv6 (the statement names IPv4, host names and MAC; IPv6 is on by default only as a neighbour).
 
-Defects of the unchanged tree this check reports (drafted in findings-draft/C08.json, narrow features):
+Defects of the unchanged tree this check reports (known_findings.json / findings-draft/C08.json, narrow features):
   * mac.py:29  a MAC directly preceded/followed by ':' or '-' is not recognised     features {"kind":"mac","adjacent":":"|"-"}
   * hostname.py:99-105  `A ... A-B` / `A ... B-A` (A, B hosts of the domain): replacing the earlier, shorter match A
-    everywhere destroys the longer hyphen-compound match, B survives          features {"kind":"host","position":
-    "hyphen-compound-after-earlier-occurrence"}  (needs three tokens: thorough tier; the witness runs in every tier)
-  * keyword.py/password.py interplay  `password=S1-srv[1]-password: S3`: the keyword `srv[1]` (non-secret-class characters)
-    is replaced by `keyword3` BEFORE password masking, the first secret run then reaches over the second `password`
-    key and S3 survives; without the keyword configured S3 is masked.        features {"kind":"pw","position":
-    "key-inside-earlier-secret-run-after-keyword-substitution"}  (three tokens: thorough tier)
+    everywhere destroys the longer compound match, B survives.   features {"kind":"host","position":
+    "hyphen-compound-after-earlier-occurrence"}; joined by '_', a letter or nothing: "glued-compound-after-..."
+    (three tokens: host-only triples in quick, all triples in thorough)
+  * keyword before password: `password=S1-srv[1]-password: S3` -> `keyword3` closes the gap in the first secret run, the
+    second key is swallowed, S3 survives.   features {"kind":"pw","position":"key-inside-earlier-secret-run-after-
+    keyword-substitution"}  (three tokens: thorough tier)
+  * keyword before mac: `srv[1]aa:bb:cc:dd:ee:ff` -> `keyword3aa:...`, the look-behind now sees a digit.
+    features {"kind":"mac","adjacent":"glued-after-keyword"}
+  * ip.py keep-width (netstat): `10.1.1.1 password=S` -> `10.230.230.1sword=S`.
+    features {"kind":"pw","position":"key-truncated-by-ipv4-keep-width"}
 """
 import itertools
 import os
@@ -55,13 +67,15 @@ from mc.result import Result
 
 ID = "C08"
 LEVEL = "exploration"
-RULE = ("every content of <= 2 lines, each line d0 t1 d1 t2 d2 [t3 d3] with t_i from the token alphabet T "
-        "(30 tokens: IPv4 incl. prefix-related/containing/loopback, host names of web01.corp.test, MACs incl. "
-        "all-zero/broadcast and a 00/ff-only one that is neither, keywords incl. two with regex metacharacters, plain/regex/POSIX/backslash-class/backslash-anchor pattern words, 5 password "
-        "forms, a neutral word) and d_i from the delimiter set D (inner delimiters never empty; directly after an "
-        "IPv4 token additionally the word characters 'x' and '_'), x every configuration with <= 1 deviation "
-        "from everything-on, x path; a case is non-trivial when it holds >= 2 sensitive tokens and the cleaner "
-        "actually rewrote or dropped something (output != input)")
+RULE = ("every content of <= 2 lines, each line d0 t1 d1 t2 d2 [t3 d3] with t_i from the token alphabet T (32 tokens: IPv4 "
+        "incl. prefix-related/containing/loopback; short/FQDN/other hosts of web01.corp.test incl. a mixed-case hyphenated "
+        "label; MACs incl. all-zero/broadcast and a 00/ff-only one that is neither; keywords incl. two with regex "
+        "metacharacters; plain/regex/POSIX/backslash-class/backslash-anchor pattern words; 6 password forms incl. tab; a "
+        "neutral word) and d_i from the delimiter set D (13 incl. tab and the line boundary) extended by the word "
+        "character 'x' (after IPv4 also '_') and, between tokens, by no delimiter at all; x every configuration with <= 1 "
+        "deviation from everything-on (incl. an allow-list); x entry point; plus keyword lists with internal structure "
+        "(12 entries, prefixes, substitute look-alikes), the empty exclusion pattern, the keep-width paths. A case is "
+        "non-trivial when it holds >= 2 sensitive tokens and the cleaner actually rewrote or dropped something")
 ASSUMPTIONS = [
     "bounded: no counterexample with <= 2 (quick; 3 for host-name-only lines) / <= 3 (thorough) tokens per line, <= 2 lines, "
     "over the stated T and D",
@@ -163,25 +177,33 @@ def keyword_list_variants():
 
 BOUNDS = {
     "quick": {"tokens": NT, "configs": len(configs()), "max_tokens_per_line": "2 (3 on host-name-only lines)", "max_lines": 2,
-              "pairs_default_cfg": "d0,d2 in D_RED (6 incl. line boundary), d1 in D_RED minus boundary (5); clean_content",
-              "pairs_deviation_cfgs": "(d0,d2) in {boundary, space, ':'} diagonal, d1 in D_RED minus boundary; clean_content",
-              "singles_all_cfgs": "d0,d2 in full D (12) via clean_content; d0,d2 in D_RED via clean_file and provider write",
-              "pairs_file_paths": "d0=d2=line boundary, d1 in D_RED minus boundary (default cfg) / {space, ':'} (deviations); "
+              "pairs_default_cfg": "d0 in {boundary, space, ':', 'x'}, d1 in D_RED minus boundary + {'', 'x'}, d2 in D_RED + {'x'} "
+                                   "(after IPv4 also '_'); clean_content",
+              "pairs_deviation_cfgs": "(d0,d2) in {boundary, space, ':'} diagonal (+ boundary/'x','_' after IPv4), d1 in "
+                                      "{space, ':', '-', ''}; clean_content",
+              "singles_all_cfgs": "d0,d2 in full D (13) + 'x' via clean_content(list) and clean_content(str); d0,d2 in D_RED "
+                                  "(default cfg) / {boundary, space, ':'} (deviations) + word neighbours via clean_file, "
+                                  "TextFileProvider.write, DatasourceProvider.write",
+              "pairs_file_paths": "d0=d2=line boundary, d1 in D_RED minus boundary + '' (default cfg) / {space} (deviations); "
                                   "clean_file and provider write",
-              "two_lines_default_cfg": "both lines single-token with (d0,d2) in {(boundary,boundary),(space,':')}; all three paths",
-              "host_triples_default_cfg": "4 host tokens ^3, outer {boundary, space, ':'}, inner {space, ':', '-'}; clean_content",
-              "ipv4_right_neighbours": "directly after an IPv4 token every delimiter choice is extended by 'x' and '_'",
+              "two_lines_default_cfg": "lines single-token with (d0,d2) in {(boundary,boundary),(space,':')}, IPv4+'x'/'_', the "
+                                       "blank line; clean_content, two calls on one Cleaner, clean_file, provider write",
+              "host_triples_default_cfg": "5 host tokens ^3, outer diagonal {boundary, space, ':'}, inner {space, ':', '-', '', '_'}",
+              "width": "keep-width paths (width=True, file / spec named netstat_-neopa): singles over D_RED, pairs with an address",
+              "patvariants": "pattern list [''] plain and regex: singles and two-line contents, four entry points",
+              "kwlists": "8 keyword lists with internal structure: singles and pairs of their keywords",
               "D_RED": D_RED},
     "thorough": {"tokens": NT, "configs": len(configs()), "max_tokens_per_line": 3, "max_lines": 2,
-                 "pairs_default_cfg": "d0,d2 in full D (12 incl. line boundary), d1 in full D minus boundary (11); clean_content",
-                 "pairs_deviation_cfgs": "d0,d2 in D_RED, d1 in full D minus boundary; clean_content",
-                 "singles_all_cfgs": "d0,d2 in full D via all three paths",
-                 "pairs_file_paths": "d0=d2=line boundary, d1 in full D minus boundary; clean_file and provider write; all cfgs",
-                 "two_lines_default_cfg": "both lines single-token with d0,d2 in {boundary, space, ':'}; all three paths",
-                 "triples_default_cfg": "all 30^3 token triples, d0,d3 in {boundary, space, ':'}, d1,d2 in D_RED minus boundary; clean_content "
-                                        "(outer delimiters trimmed from D_RED when the alphabet grew from 25 to 30 tokens; single-token "
-                                        "boundaries are covered over full D by singles and pairs)",
-                 "ipv4_right_neighbours": "directly after an IPv4 token every delimiter choice is extended by 'x' and '_'",
+                 "pairs_default_cfg": "d0,d2 in full D (13) + 'x' (after IPv4 also '_'), d1 in full D minus boundary + {'', 'x'}; "
+                                      "clean_content",
+                 "pairs_deviation_cfgs": "d0,d2 in D_RED (+ 'x','_' after IPv4), d1 in full D minus boundary + ''; clean_content",
+                 "singles_all_cfgs": "d0,d2 in full D + 'x' via all six entry points",
+                 "pairs_file_paths": "d0=d2=line boundary, d1 in full D minus boundary + ''; clean_file and provider write; all cfgs",
+                 "two_lines_default_cfg": "lines single-token with d0,d2 in {boundary, space, ':'}, IPv4+'x'/'_', the blank line; "
+                                          "four entry points",
+                 "triples_default_cfg": "all 32^3 token triples, d0,d3 in {boundary, space, ':'} (+ 'x','_' after IPv4), d1,d2 in "
+                                        "D_RED minus boundary + ''; clean_content",
+                 "width/patvariants/kwlists": "as in quick",
                  "D_RED": D_RED, "D_FULL": D_FULL},
 }
 CAP_S = {"quick": 120, "thorough": 2400}
@@ -901,9 +923,9 @@ def run_unit(unit, tier):
     return res
 
 
-TECHNIQUE = ("bounded exhaustive enumeration of token/delimiter lines x single-deviation configurations x write paths, "
+TECHNIQUE = ("bounded exhaustive enumeration of token/delimiter lines x single-deviation configurations x entry points, "
              "executed against the real Cleaner; survivor oracle after masking the substitutes reported by mapping()")
-LEVEL_TEXT = ("Every line of <= 2 (quick) / <= 3 (thorough) sensitive tokens over 30 tokens and 12 delimiters (+ 'x', '_' after IPv4), every content "
+LEVEL_TEXT = ("Every line of <= 2 (quick) / <= 3 (thorough) sensitive tokens over 32 tokens and 13 delimiters (+ word-character neighbours and no delimiter), every content "
               "of <= 2 such lines, under every configuration one switch / one per-spec exemption / one pattern form / one "
               "host-name form away from everything-on, is cleaned by the real code through clean_content, clean_file and "
               "the provider write path, and the output is searched for survivors. No sampling; the claim is 'no survivor "
